@@ -53,6 +53,9 @@ func NewEngine(e EngineSpec, sfs *SimFS) *Engine {
 	}
 	eng := &Engine{FS: sfs}
 	eng.Tpl = vuego.NewFS(view, opts...)
+	if e.BaseFill != nil {
+		eng.Tpl.Fill(BuildData(*e.BaseFill))
+	}
 	v := vuego.NewVue(view)
 	for _, o := range opts {
 		o(v)
@@ -172,6 +175,10 @@ func (e *Engine) Exec(idx int, op OpSpec, shared any) (out Outcome) {
 		err = e.Tpl.Load(op.File).Fill(data).Render(ctx, w)
 	case "RenderFile":
 		err = e.Tpl.New().Fill(data).RenderFile(ctx, w, op.File)
+	case "Base.RenderFile": // straight on the shared base template
+		err = e.Tpl.RenderFile(ctx, w, op.File)
+	case "Base.RenderString":
+		err = e.Tpl.RenderString(ctx, w, op.Source)
 	case "RenderString":
 		err = e.Tpl.New().Fill(data).RenderString(ctx, w, op.Source)
 	case "RenderByte":
